@@ -85,6 +85,54 @@ fn main() {
             dispatch!(args[2].as_str(), worker_p(&a))
         }
         Some("replay") if args.len() >= 4 => dispatch!(args[2].as_str(), replay_p(&args[3])),
+        Some("mirileg") if args.len() >= 5 => {
+            // gv mirileg <ID> <slice> <nslices> [stride]: executes a deterministic
+            // slice of small cases in-process (meant to run under `cargo miri run`);
+            // every case is printed before it runs, so the last line names the culprit
+            let slice: u64 = args[3].parse().unwrap_or(0);
+            let n: u64 = args[4].parse::<u64>().unwrap_or(1).max(1);
+            let stride: u64 = args.get(5).and_then(|s| s.parse().ok()).unwrap_or(1).max(1);
+            runner::install_quiet_hook();
+            let mut done = 0_u64;
+            match args[2].as_str() {
+                "C13" => {
+                    let total = props::c13::miri_cases_len();
+                    let mut i = slice;
+                    while i < total {
+                        if (i / n) % stride == 0 {
+                            if let Some(case) = props::c13::miri_case(i) {
+                                println!("CASE {}", runner::to_json(&case));
+                                let mut obs = runner::Obs::default();
+                                if let Err(m) = <props::c13::C13 as Prop>::check(&case, &mut obs) {
+                                    println!("ORACLE-FAILURE {m}");
+                                    std::process::exit(1);
+                                }
+                                done += 1;
+                            }
+                        }
+                        i += n;
+                    }
+                }
+                "C17" => {
+                    let cases = props::c17::miri_cases();
+                    for (i, case) in cases.iter().enumerate() {
+                        if i as u64 % n != slice {
+                            continue;
+                        }
+                        println!("CASE {}", runner::to_json(case));
+                        let mut obs = runner::Obs::default();
+                        if let Err(m) = <props::c17::C17 as Prop>::check(case, &mut obs) {
+                            println!("ORACLE-FAILURE {m}");
+                            std::process::exit(1);
+                        }
+                        done += 1;
+                    }
+                }
+                _ => {}
+            }
+            println!("MIRILEG-DONE {done}");
+            0
+        }
         Some("decode-fuzz") if args.len() >= 4 => {
             // bytes of a libFuzzer input -> the JSON case the fuzz target executed
             let data = std::fs::read(&args[3]).unwrap_or_default();
